@@ -103,6 +103,10 @@ func genC20Plan(r *sim.Rng, tier string) C20Plan {
 			p.Ops = append(p.Ops, C20Op{Kind: "tick", N: 1 + r.Intn(3)})
 		case 15:
 			p.Ops = append(p.Ops, C20Op{Kind: "blacklist", S: s})
+			if r.Bool(0.6) {
+				// ... and, once the entry has expired, a burst of HLS requests
+				p.Ops = append(p.Ops, C20Op{Kind: "tick", N: 2 + r.Intn(3)}, C20Op{Kind: "hls_burst", S: s})
+			}
 		case 16:
 			p.Ops = append(p.Ops, C20Op{Kind: "rtp_pub", S: r.Intn(p.Streams)})
 		case 17:
@@ -178,6 +182,8 @@ func runC20(k *sim.Kernel, p C20Plan) {
 	pullName := StreamName(p.Streams)
 	originUnits := admUnits(77, 40, true)
 	originSent := 0
+	nBurst := 0
+	var bursts []*actors.HttpClient
 	nStart := 0
 	for _, op := range p.Ops {
 		var s *c20Sess
@@ -199,6 +205,15 @@ func runC20(k *sim.Kernel, p C20Plan) {
 		case "blacklist":
 			body, _ := json.Marshal(map[string]interface{}{"ip": fmt.Sprintf("10.0.%d.1", 100+op.S), "duration_sec": 1 + op.S%3})
 			api("bl", "/api/ctrl/add_ip_blacklist", body)
+		case "hls_burst":
+			// several playlist requests at once, from listed and unlisted addresses (the black list is consulted and
+			// pruned on every request)
+			for j := 0; j < 3; j++ {
+				nBurst++
+				c := actors.NewHttpClient(k, fmt.Sprintf("hlsb%d", nBurst), "get", "/hls/"+StreamName(op.S%p.Streams)+".m3u8")
+				c.Connect(PortHttp, 100+(op.S+j)%len(ss))
+				bursts = append(bursts, c)
+			}
 		case "pull_start":
 			body, _ := json.Marshal(map[string]interface{}{"url": "rtmp://10.9.9.6:1935/live/" + pullName, "stream_name": pullName, "pull_timeout_ms": 3000,
 				"pull_retry_num": []int{-1, 0, 1}[op.N%3], "auto_stop_pull_after_no_out_ms": []int{-1, -1, 0, 1500}[op.N%4]})
